@@ -178,6 +178,9 @@ func runC12(c *core.Case) {
 		t := c12Decode(c.I)
 		dir, idx, zi, zo, E, O = t.dir, t.idx, t.zi, t.zo, t.E, t.O
 		c.Tag("exhaustive-subscope")
+	} else if hammerWanted(c, ex) {
+		c12Hammer(c, ex)
+		return
 	} else {
 		dir = r.Intn(2)
 		zi, zo, E = genZoom(r), genZoom(r), genZoom(r)
